@@ -155,7 +155,7 @@ Qed.
 Lemma clean_parts : forall ps pos, forallb clean_attr (parts_tattrs pos ps) = true.
 Proof.
   induction ps as [|p ps IH]; intros pos; [reflexivity|]. cbn [parts_tattrs]. rewrite forallb_app, IH, andb_true_r.
-  destruct p as [v|v|l]; cbn [part_tattrs]; [reflexivity|reflexivity|apply clean_set].
+  destruct p as [k v|k v|l]; cbn [part_tattrs]; [reflexivity|reflexivity|apply clean_set].
 Qed.
 
 Lemma clean_elem_leaf pos e els :
